@@ -150,6 +150,10 @@ func faultsApplicable(c *world.Call, kinds []string) []string {
 			if c.Verb == "update" {
 				out = append(out, k)
 			}
+		case world.FConflictPause:
+			if c.Verb == "update" && c.Resource == "statefulsets" {
+				out = append(out, k)
+			}
 		case world.FGone:
 			if c.Verb == "update" || c.Verb == "patch" || c.Verb == "delete" || c.Verb == "get" {
 				out = append(out, k)
